@@ -227,6 +227,8 @@ pub enum Cond {
     And(Box<Cond>, Box<Cond>),
     Or(Box<Cond>, Box<Cond>),
     Not(Box<Cond>),
+    /// the 0/1 result of a logical or comparison sub-condition, compared with a literal
+    CmpBool(Box<Cond>, CmpOp, Val),
 }
 
 impl Cond {
@@ -238,13 +240,13 @@ impl Cond {
                 a.columns(out);
                 b.columns(out);
             }
-            Cond::Not(a) => a.columns(out),
+            Cond::Not(a) | Cond::CmpBool(a, _, _) => a.columns(out),
         }
     }
     pub fn size(&self) -> usize {
         match self {
             Cond::And(a, b) | Cond::Or(a, b) => 1 + a.size() + b.size(),
-            Cond::Not(a) => 1 + a.size(),
+            Cond::Not(a) | Cond::CmpBool(a, _, _) => 1 + a.size(),
             _ => 1,
         }
     }
